@@ -127,6 +127,10 @@ pub struct BridgeSpec {
     /// the crate itself) instead of `into_copy_bidirectional_with_buf`
     #[serde(default)]
     pub plain: bool,
+    /// (k, n): from its k-th call on (1-based), `poll_flush` returns Pending until Wake(n) has fired - a buffering local side
+    /// (TLS, BufWriter, a pipe) whose flush has to wait for the consumer
+    #[serde(default)]
+    pub flush_pending: Option<(u8, u8)>,
 }
 
 #[derive(Clone, Debug, Hash, PartialEq, Eq, Serialize, Deserialize)]
@@ -199,6 +203,8 @@ pub enum RawMsg {
     PushFor { id: u32, stream: u32, off: u32, len: u32 },
     Bind { id: u32, dgram: bool, port: u16, host: Vec<u8> },
     Datagram { id: u32, port: u16, host: Vec<u8>, data: Vec<u8> },
+    /// like PushFor with the direction given (0 = written by the opener end of `stream`, 1 = by its acceptor end)
+    PushDir { id: u32, stream: u32, dir: u8, off: u32, len: u32 },
     Bytes(Vec<u8>),
     Ping,
     Pong,
@@ -219,6 +225,10 @@ impl RawMsg {
             }
             RawMsg::PushFor { id, stream, off, len } => {
                 let data: Vec<u8> = (0..*len).map(|i| pay(*stream as usize, 1 - 0, (*off + i) as usize)).collect();
+                b(Frame::new_push(*id, &data))
+            }
+            RawMsg::PushDir { id, stream, dir, off, len } => {
+                let data: Vec<u8> = (0..*len).map(|i| pay(*stream as usize, *dir as usize, (*off + i) as usize)).collect();
                 b(Frame::new_push(*id, &data))
             }
             RawMsg::Bind { id, dgram, port, host } => b(Frame::new_bind(*id, if *dgram { BindType::Datagram } else { BindType::Stream }, host, *port)),
@@ -939,8 +949,13 @@ impl AsyncWrite for ScriptedLocal {
         }
         Poll::Ready(Ok(n))
     }
-    fn poll_flush(self: Pin<&mut Self>, _cx: &mut std::task::Context<'_>) -> Poll<std::io::Result<()>> {
+    fn poll_flush(self: Pin<&mut Self>, cx: &mut std::task::Context<'_>) -> Poll<std::io::Result<()>> {
         let me = self.get_mut();
+        if let Some((k, n)) = me.spec.flush_pending {
+            if me.flushes.saturating_add(1) >= k && !me.wait(n, cx) {
+                return Poll::Pending;
+            }
+        }
         me.flushes = me.flushes.saturating_add(1);
         if me.spec.flush_err_at == Some(me.flushes) {
             me.log.app(AppEv::LocalErr { stream: me.stream, op: "flush".into(), kind: "ConnectionAborted".into() });
